@@ -4,7 +4,7 @@ import gens_algos
 from props.common import TRUSTED_BASE, ASSUMPTIONS
 
 ID = "C05"
-LEAN_MODULES = ["LexVerif.Props.C05", "LexVerif.Props.RoundNE", "LexVerif.Props.TablesParse", "LexVerif.Props.Literals.ParseFloat", "LexVerif.Props.Literals.ParseInteger"]
+LEAN_MODULES = ["LexVerif.Props.C05", "LexVerif.Props.RoundNE", "LexVerif.Props.TablesParse", "LexVerif.Props.Literals.ParseFloatParse", "LexVerif.Props.Literals.ParseFloatNumber", "LexVerif.Props.Literals.ParseFloatLemire", "LexVerif.Props.Literals.ParseFloatBellerophon", "LexVerif.Props.Literals.ParseFloatSlow", "LexVerif.Props.Literals.ParseFloatBigint", "LexVerif.Props.Literals.ParseFloatShared", "LexVerif.Props.Literals.ParseFloatFloat", "LexVerif.Props.Literals.ParseFloatMask", "LexVerif.Props.Literals.ParseFloatLimits", "LexVerif.Props.Literals.ParseIntegerAlgorithm", "LexVerif.Props.Literals.UtilDigit", "LexVerif.Props.Literals.UtilStep", "LexVerif.Props.Literals.ParseFloatBinary"]
 GEN = ["parse_tables", "literals"]
 TRUSTED = TRUSTED_BASE + [
     "the big-integer slow paths (byte_comp, digit_comp) for generic radices are NOT proved in Lean; proved: the oracle, the per-radix tables, "
